@@ -125,6 +125,27 @@ class C06(E1Prop):
                 for o in seq:
                     o['dt'] = rng.choice([1, 5, 30])
                 self.script = seq
+            elif len(dests) >= 2 and rng.random() < 0.3:
+                # story: the branch was cut below the destination tip; its
+                # integration commits are built and green; the author then
+                # merges the destination into the branch (new source tip =
+                # a merge commit bringing nothing the w/ branches lack) and
+                # CI reports green on that new source tip only
+                lo = rng.choice(dests[:-1])
+                seq = [
+                    {'op': 'open_pr', 'actor': 'alice',
+                     'src': 'bugfix/TEST-945', 'dst': lo, 'kind': 'new',
+                     'from': 'old'},
+                    {'op': 'eval', 'p': 0},
+                    {'op': 'ci_green_all', 'which': ['src', 'w']},
+                    {'op': 'merge_dst', 'p': 0},
+                    {'op': 'ci', 'state': 'SUCCESSFUL', 'target': ['src', 0]},
+                    {'op': 'eval', 'p': 0},
+                    {'op': 'deliver_all'},
+                ]
+                for o in seq:
+                    o['dt'] = rng.choice([1, 5, 30])
+                self.script = seq
         if getattr(self, 'script', None):
             return self.script.pop(0)
         return self.gen.next(w)
@@ -164,6 +185,20 @@ class C06(E1Prop):
                     refs_before_last_push_all(rec)
                 tips = integration_tips(refs, pr.src_branch)
                 w.probe('gate-passed')
+                # the integration commits are those of the *current* source
+                # tip (new source commits renew them)
+                src_tip = tips.get(pr.src_branch)
+                for name, sha in sorted(tips.items()):
+                    if src_tip and name != pr.src_branch and \
+                            not w.is_ancestor(src_tip, sha):
+                        raise Violation(
+                            'C06', 'C06:entered-on-integration-commit-'
+                            'without-the-source-tip',
+                            'PR #%d ended %s on %s = %s, which does not '
+                            'contain the current source tip %s (the build '
+                            'reports are those of a superseded source)' % (
+                                pid, status, name, sha[:10], src_tip[:10]),
+                            {'pr': pid})
                 if status == 'SuccessMessage':
                     # merged directly: the integration commit of a target
                     # beyond the first is the one that integrates the PR
